@@ -91,6 +91,21 @@ class VirtualWall:
         return SimDateTime
 
 
+def set_process_zone(offset_s):
+    """The simulated machine's zone as the C library reports it (naive.astimezone(),
+    time.localtime, datetime.fromtimestamp): a fixed offset, no DST rules, no tzdata needed.
+    POSIX TZ strings count westwards, hence the inverted sign."""
+    import os
+    import time
+    offset_s = int(offset_s or 0)
+    if offset_s == 0:
+        os.environ["TZ"] = "UTC0"
+    else:
+        h, rem = divmod(abs(offset_s), 3600)
+        os.environ["TZ"] = "SIM%s%d:%02d" % ("-" if offset_s > 0 else "+", h, rem // 60)
+    time.tzset()
+
+
 def parse_ts(s):
     return datetime.fromisoformat(s)   # naive, or aware when the string carries an offset
 
